@@ -65,10 +65,10 @@ _FS = dict(build_id='fixed_string', engine='xstate', technique='explicit-state m
     harness=['harness/c10_fixed_string.cpp'] + [dict(src='harness/c10_fixed_string.cpp', tag='L%d' % l, defs=['-DVF_CAP=%d' % l, '-DVF_THIN=%d' % t])
                                                 for l, t in ((1, 0), (2, 0), (3, 0), (4, 0), (5, 0), (7, 1), (255, 1), (256, 1))], flags='asanrec', lib=False, level='model_checking', extra_ldflags=['-ldl'],
     deadline={'quick': 150, 'thorough': 1800}, hang_s=60, quiet_stderr=True,
-    bound={'quick': 'capacities L=1,2,3,4: full operation alphabet, positions/counts {0..L+2, 2L+3, SIZE_MAX/2, npos-2, npos-1, npos}, sources = all strings over {a,b} up to L+2 as const char*/std::string/FixedString<L-1|L|L+2>; state set closed (fixed point)',
+    bound={'quick': 'capacity 255 (maximum of the 8-bit length type): one step from 9 seed states with thinned arguments; capacities L=1,2,3,4: full operation alphabet, positions/counts {0..L+2, 2L+3, SIZE_MAX/2, npos-2, npos-1, npos}, sources = all strings over {a,b} up to L+2 as const char*/std::string/FixedString<L-1|L|L+2>; state set closed (fixed point)',
            'thorough': 'quick + L=5 (full alphabet) + L=7,255,256 (thinned argument domains around 0,1,L-1,L,L+1 and the length-type boundary)'},
 )
-CHECKS['C10'] = dict(_FS, level_text='all operation sequences over the alphabet for capacities 1..4 (quick) / up to 7, 255, 256 (thorough): the reachable state set closes, every transition is checked for memory safety and well-formedness', title='Fixed-capacity string never touches memory outside itself and stays well-formed',
+CHECKS['C10'] = dict(_FS, level_text='all operation sequences over the alphabet for capacities 1..4 (quick, plus one step from seed states at capacity 255) / up to 7, 255, 256 (thorough): the reachable state set closes, every transition is checked for memory safety and well-formedness', title='Fixed-capacity string never touches memory outside itself and stays well-formed',
     worker_args=['--opt', 'prop=C10'],
     rule='explicit-state search: state = byte image of a real FixedString<L>; transition = one public operation with one argument tuple (ALL tuples, in and out of the documented domain); '
          'oracle after every transition: no AddressSanitizer report (object between poisoned guard zones, exact-size sources), length<=capacity, NUL at length, strlen==length; '
@@ -141,7 +141,7 @@ CHECKS['C05'] = dict(title='A key designates exactly one argument, independent o
     level_text='all sequences of <= 4 (quick) / <= 5 (thorough) key specifications from a pool of 14 with prefix-related long keys, abbreviations on and off: every definition compared with the set model (refuse iff short or long key taken), then every exact key and every prefix of every long key looked up on the real handler',
     level_note='trusts the 4-line set model; pool of 2 short and 4 long keys; one-character prefixes are outside (the library reads --x as the short key x)',
     rule='sequence of key specs (odometer, all orders) x written variant (dash count, order of short/long) x abbreviations; per accepted set one evaluation per exact key and per prefix; states = sequences, transitions = addArgument + evalArguments calls',
-    bound={'quick': 'sequences of <= 4 specifications', 'thorough': 'sequences of <= 5 specifications'},
+    bound={'quick': 'sequences of <= 4 specifications; sequences of <= 3 also with every argument defined as a sub-group opener', 'thorough': 'sequences of <= 5 specifications; sub-group openers as in quick'},
     assumptions=['every lookup uses a fresh handler with the same definitions (a handler is evaluated once)'])
 
 CHECKS['C06'] = dict(title='Multi-value destinations end up as the fold of all values given', engine='xenum',
@@ -150,7 +150,7 @@ CHECKS['C06'] = dict(title='Multi-value destinations end up as the fold of all v
     level_text='13 container kinds + int[3], array, tuple, bitset, vector<bool>, DynamicBitset, 4 key-value containers; every supported combination of separator/clear/sort/unique/multi-value/check/initial content; every sequence of <= 3 (quick) / <= 4 (thorough) elements incl. duplicates and an out-of-range element; every way of cutting the sequence into uses and free values',
     level_note='trusts the reference fold (placement rules taken from the adapters\' documented behaviour); lists with empty elements are outside (no documented meaning)',
     rule='kind x options (odometer) x element sequence x cut (2^(n-1) compositions) x free-value form; states = option configurations accepted by the destination, transitions = evalArguments calls; all cuts of one sequence are compared with the same fold',
-    bound={'quick': 'sequences <= 3 over {0,1,2,7} / {a,b,B}; separators , ;', 'thorough': 'sequences <= 4; separators , ; .'},
+    bound={'quick': 'sequences <= 3 over {0,1,2,7} / {a,b,B}; separators , ; string kinds with a general or a position-1 formatter', 'thorough': 'sequences <= 4; separators , ; .'},
     assumptions=['option combinations a destination refuses at definition time are skipped and counted', 'unordered containers are compared as multisets'])
 
 CHECKS['C07'] = dict(title='Arguments from a string, a file or the environment equal the same words on argv', engine='xenum',
@@ -177,7 +177,7 @@ CHECKS['C04'] = dict(title='Argument evaluation is memory-safe for every argumen
     level_text='every argv of <= 2 words of <= 3 raw characters (quick: second word <= 2), every line of <= 3 (quick) / <= 4 (thorough) tokens, program names of every length up to 3 and at allocator boundaries, each through 8 source/flag modes (plain, program-argument file absent/present, environment unset/empty/set, argument file, Groups) on a handler with every destination kind',
     level_note='oracle is the sanitizer (heap/stack/global overflow, use after free, mismatched delete, null dereference, libstdc++ assertions) + outcome type; a crash ends the case it occurs in (the remaining lines of that case are not run, the case is reported)',
     rule='case = (alphabet family, first word[s]); within a case all continuations x 8 modes; states = argument vectors x modes, transitions = evalArguments calls; non-trivial = cases',
-    bound={'quick': 'raw: 1156 first words (<= 3 chars over 10 characters; <= 2 chars also over blank and 0xff) x 156 second words; tokens: lines <= 3 of 60 tokens; 70 program names incl. the empty one', 'thorough': 'raw: 1156 x 1156, 3 words of <= 2 chars; tokens: lines <= 4 (4th token in plain mode)'},
+    bound={'quick': 'raw: 1156 first words (<= 3 chars over 10 characters; <= 2 chars also over blank and 0xff) x 156 second words; tokens: lines <= 3 of 60 tokens; 70 program names incl. the empty one; lists of 0..24 values into vector / int[16] / array<int,16> / 12-tuple with a formatter for position 0..2', 'thorough': 'raw: 1156 x 1156, 3 words of <= 2 chars; tokens: lines <= 4 (4th token in plain mode)'},
     assumptions=['argc >= 1 and argv[argc] == nullptr (what the C runtime guarantees)', 'exit() is interposed: the help arguments are used with "continue after usage"'])
 
 CHECKS['C18'] = dict(title='The usage lists exactly the visible arguments, each once', engine='xenum',
